@@ -34,8 +34,8 @@ TRUSTED = [
     "std semantics of the functions classified total in the inventory", "axioms listed under coverage.axioms_used",
     "a failed recvmsg stores nothing; ScmSocket::recv_with_fds performs one recvmsg",
 ]
-ASSUMPTIONS = ["one obligation is assumed, not proved: body_vec.drain(..content_length) needs len(body_vec) + body_bytes_to_be_read == content_length, an invariant across calls (argument in DESIGN.md)"]
-NOT_DECIDED = "allocation failure (abort on OOM); the cross-call length invariant behind body_vec.drain(..content_length), reported as assumed"
+ASSUMPTIONS = ["sub-parsers are entered only in their own state (checked by R03.3 ranking|dispatch)"]
+NOT_DECIDED = "allocation failure (abort on OOM)"
 TECHNIQUE = "abstract interpretation over MIR: linear-inequality domain with trace partitioning (Fourier-Motzkin entailment), panic-site inventory, typestate and loop-ranking rules"
 RELEASE_TOO = True
 
@@ -81,6 +81,7 @@ ENVIRONMENT = {
     ("server::HttpServer::requests", "get_mut"): "epoll reports only registered descriptors and every registered connection is in the map (C09 R09.3)",
     ("server::HttpServer::requests::{closure#3}", "epoll_del"): "every entry of the map was registered with epoll_add (C09 R09.3)",
 }
+# sites whose obligation is an invariant across calls: discharged by R03.6, never assumed
 ASSUMED = {
     (conn.PARSE_B, "drain", "Headers::content_length"): "needs len(body_vec) + body_bytes_to_be_read == content_length while WaitingForBody: established when the state is entered (body_vec empty, counter = content_length), preserved by the partial path (both change by the same amount) and consumed here; an invariant across calls that the per-call analysis does not carry",
 }
@@ -96,7 +97,10 @@ def run(ctx):
     ctx.guarded("R03.1", "stream", lambda: stream(ctx))
     ts = {}
     ctx.guarded("R03.4", "typestate", lambda: ts.update(ok=typestate(ctx)))
-    ctx.guarded("R03.2", "panics", lambda: panics(ctx, ts.get("ok", False)))
+    ctx.rule("R03.6", "object invariant, inductive over every &mut self method: state == WaitingForBody => len(body_vec) + body_bytes_to_be_read == content_length(pending); otherwise body_vec is empty -- it proves body_vec.drain(..content_length) in range")
+    bi = {}
+    ctx.guarded("R03.6", "body-invariant", lambda: bi.update(ok=body_invariant(ctx)))
+    ctx.guarded("R03.2", "panics", lambda: panics(ctx, ts.get("ok", False), bi.get("ok", False)))
     ctx.guarded("R03.3", "loops", lambda: loops(ctx))
     ctx.guarded("R03.5", "recursion", lambda: recursion(ctx))
 
@@ -226,8 +230,206 @@ def typestate(ctx):
     return all_ok
 
 
+# ------------------------------------------------------------------------------------------ R03.6
+class _BodyTr(Tr):
+    """Translator with two ghost quantities: the current length of self.body_vec (tracked through
+    extend_from_slice / drain / clear) and the declared length of the pending request."""
+
+    def __init__(self, facts, fn, st):
+        Tr.__init__(self, facts, fn, st)
+        self.L = None
+        self.CL = None
+
+    def is_body_vec(self, x):
+        x = look(x)
+        while x[0] == "mut":
+            x = look(x[1])
+        if x[0] == "place":
+            return x[1].endswith(".body_vec")
+        return x[0] == "field" and x[3] == "body_vec" and x[2] == conn.HC
+
+    def length(self, x):
+        if self.is_body_vec(x):
+            return self.L
+        return Tr.length(self, x)
+
+    def lin(self, t):
+        x = look(t)
+        if is_call(x, "common::headers::Headers::content_length") and conn.pending_req(x):
+            return self.CL
+        return Tr.lin(self, t)
+
+
+def body_invariant(ctx):
+    facts = ctx.facts
+    WFB = "WaitingForBody"
+    sd = facts.variant_discr("connection::ConnectionState")
+    all_states = set(sd.values())
+    methods = []
+    for f in facts.fns.values():
+        if f.name.startswith(conn.P) and f.d["kind"] != "closure" and f.nargs >= 1:
+            ty = f.locals[1]["ty"]
+            if ty.get("k") == "ref" and ty.get("mut") and (ty["inner"].get("path") == conn.HC):
+                methods.append(f)
+    all_ok = True
+    n_paths = n_drains = 0
+    bbr_field = ("field", ("deref", ("arg", 1)), conn.HC, "body_bytes_to_be_read")
+    for fn in methods:
+        lv = PathEnum(fn, facts, versioned=True).run()
+        ctx.touched(fn)
+        for lf in lv:
+            if lf.kind not in ("return", "loop"):
+                continue
+            touches = any((e[0] == "call" and e[4][2] and _bodytouch(e)) or (e[0] == "assign" and e[3] in ("(*_1).body_vec", "(*_1).body_bytes_to_be_read", "(*_1).state")) for e in lf.events)
+            if not touches:
+                continue
+            # entry-state knowledge: state conditions seen before the first write of state
+            entry = set(all_states)
+            if fn.name == conn.PARSE_B:
+                entry = {WFB}      # dispatched only in this state (R03.3 ranking|dispatch)
+            elif fn.name == conn.PARSE_H:
+                entry = {"WaitingForHeaders"}
+            elif fn.name == conn.PARSE_RL:
+                entry = {"WaitingForRequestLine"}
+            for e in lf.events:
+                if e[0] == "assign" and e[3] == "(*_1).state":
+                    break
+                if e[0] == "call" and e[3] in facts.fns and e[3].startswith(conn.P) and e[4][2] and look(e[4][2][0]) == ("arg", 1):
+                    break
+                if e[0] == "cond" and e[3][0] == "discr" and self_field(e[3][1], "state"):
+                    c = e[4]
+                    entry &= ({sd[c[1]]} if c[0] == "eq" else {n for k, n in sd.items() if k not in c[1]})
+            cases = []
+            if WFB in entry:
+                cases.append(True)
+            if entry - {WFB}:
+                cases.append(False)
+            for in_body in cases:
+                n_paths += 1
+                st = State()
+                tr = _BodyTr(facts, fn, st)
+                tr.L = tr.atom(("ghost", "len(body_vec) at entry"), 0, 2**40)
+                tr.CL = tr.atom(("ghost", "content_length of the pending request"), 0, 2**32 - 1)
+                b0 = tr.lin(bbr_field)
+                if in_body:
+                    st.add_eq(tr.L + b0 - tr.CL)
+                else:
+                    st.add_eq(tr.L)
+                state_now = WFB if in_body else None   # None = some state other than WFB
+                known = True   # do we still know L / state (no opaque &mut self call since)?
+                why = None
+                for e in lf.events:
+                    if e[0] == "cond":
+                        if e[3][0] == "discr" and self_field(e[3][1], "state") and not known:
+                            # state observed again after an opaque call: re-assume the invariant for that case
+                            c = e[4]
+                            poss = ({sd[c[1]]} if c[0] == "eq" else {n for k, n in sd.items() if k not in c[1]})
+                            if WFB not in poss:
+                                st.add_eq(tr.L)
+                                state_now = None
+                                known = True
+                            elif poss == {WFB}:
+                                st.add_eq(tr.L + tr.lin(bbr_field) - tr.CL)
+                                state_now = WFB
+                                known = True
+                        tr.assume_cond(e[3], e[4])
+                    elif e[0] == "assert":
+                        pass
+                    elif e[0] == "assign":
+                        if e[3] == "(*_1).state":
+                            v = e[4]
+                            state_now = WFB if (v[0] == "agg" and v[2] == WFB) else None
+                        elif e[3] == "(*_1).body_vec":
+                            v = look(e[4])
+                            if is_call(v, "new") or (v[0] == "call" and not v[2]):
+                                tr.L = Lin.const(0)
+                            else:
+                                why = "body_vec is overwritten with something other than an empty vector"
+                    elif e[0] == "call":
+                        path, args = e[3], e[4][2]
+                        if args and tr.is_body_vec(args[0]) and args[0][0] == "ref" and args[0][2]:
+                            seg = last_seg(path)
+                            if seg == "extend_from_slice" or seg == "extend":
+                                tr.L = tr.L + Tr.length(tr, args[1])
+                            elif seg == "clear":
+                                tr.L = Lin.const(0)
+                            elif seg == "drain":
+                                r = look(args[1])
+                                if r[0] == "agg" and "RangeFull" in r[1]:
+                                    tr.L = Lin.const(0)
+                                elif r[0] == "agg" and r[1].startswith("std::ops::RangeTo") and "Inclusive" not in r[1]:
+                                    n = tr.lin(r[3][0])
+                                    n_drains += 1
+                                    okd = known and st.entails_le(n - tr.L)
+                                    ctx.ob("R03.6", "%s|drain-in-range|%s" % (fn.name.split("::")[-1], "in-body" if in_body else "other"), okd, "%s: body_vec.drain(..n) with n <= len(body_vec) entailed by the invariant and the path" % fn.name.split("::")[-1], fn.loc(e[1]))
+                                    all_ok = all_ok and okd
+                                    tr.L = tr.L - n
+                                else:
+                                    why = "unsupported drain range on body_vec"
+                            elif seg in ("push", "append", "insert", "truncate", "resize", "retain", "split_off", "swap_remove", "remove", "pop"):
+                                why = "body_vec is modified by %s, which the invariant proof does not model" % seg
+                        elif path in facts.fns and path.startswith(conn.P) and args and look(args[0]) == ("arg", 1) and _takes_mut_self(facts, path):
+                            # the callee keeps the invariant (proved for it separately); what we knew is gone
+                            known = False
+                            tr.L = tr.atom(("ghost", "len(body_vec) after %s@%d" % (path.split("::")[-1], e[1])), 0, 2**40)
+                            state_now = "?"
+                if why:
+                    all_ok = False
+                    ctx.fail("R03.6", "%s|unmodelled" % fn.name.split("::")[-1], "%s: %s" % (fn.name.split("::")[-1], why), fn.loc(lf.bb))
+                    continue
+                if st.inconsistent():
+                    continue   # this path is infeasible under the invariant (e.g. `!body_vec.is_empty()` after the drain)
+                if (lf.kind != "return" and not (lf.kind == "loop" and fn.name == conn.parse_loop_fn(ctx))) or not known or state_now == "?":
+                    if not known and any(e[0] == "assign" and e[3] in ("(*_1).body_vec", "(*_1).body_bytes_to_be_read") for e in lf.events):
+                        pass
+                    continue
+                b_exit = lf.env.get("(*_1).body_bytes_to_be_read")
+                b1 = tr.lin(b_exit) if b_exit is not None else tr.lin(bbr_field)
+                if state_now == WFB:
+                    good = st.entails_eq(tr.L + b1 - tr.CL)
+                    msg = "leaves in WaitingForBody with len(body_vec) + body_bytes_to_be_read == content_length"
+                else:
+                    good = st.entails_eq(tr.L)
+                    msg = "leaves outside WaitingForBody with body_vec empty"
+                all_ok = all_ok and good
+                ctx.ob("R03.6", "%s|exit|%s->%s|bb%d" % (fn.name.split("::")[-1], "WFB" if in_body else "other", "WFB" if state_now == WFB else "other", lf.trace[-2] if len(lf.trace) > 1 else 0), good, "%s %s" % (fn.name.split("::")[-1], msg), fn.loc(lf.bb))
+    # the declared length cannot change while a body is awaited
+    callers = sorted({f.name for f in facts.fns.values() if list(f.calls_to(conn.PHL))})
+    okc = set(callers) <= {conn.PARSE_H, "common::headers::Headers::try_from"}
+    ctx.ob("R03.6", "content-length-stable", okc, "parse_header_line (the only writer of Headers.content_length) is called from %s: not while a body is awaited" % callers)
+    new_ok = False
+    fnew = facts.fn(conn.P + "new")
+    names = [f["name"] for f in facts.struct_fields(conn.HC)]
+    for lf in PathEnum(fnew, facts).run():
+        r = lf.ret()
+        if r[0] == "agg" and r[1] == conn.HC:
+            v = look(r[3][names.index("body_vec")])
+            new_ok = is_call(v, "new") or (v[0] == "call" and not v[2]) or v[0] in ("array",) or "vec" in str(v[1]).lower()
+    ctx.ob("R03.6", "new|empty", new_ok, "a new connection starts with an empty body_vec")
+    ctx.ob("R03.6", "floor", n_paths >= 8 and n_drains >= 1, "%d path/case combinations that touch the body accumulator checked, %d drain site(s) (floors 8, 1)" % (n_paths, n_drains))
+    return all_ok and okc and new_ok and n_drains >= 1
+
+
+def _takes_mut_self(facts, path):
+    fn = facts.fns[path]
+    if fn.nargs < 1:
+        return False
+    ty = fn.locals[1]["ty"]
+    return ty.get("k") == "ref" and ty.get("mut") and ty["inner"].get("path") == conn.HC
+
+
+def _bodytouch(e):
+    a = e[4][2][0]
+    x = look(a)
+    while x[0] == "mut":
+        x = look(x[1])
+    if x[0] == "place":
+        return x[1].endswith(".body_vec")
+    return x[0] == "field" and x[3] == "body_vec"
+
+
 # ------------------------------------------------------------------------------------------ R03.2
-def panics(ctx, typestate_ok):
+def panics(ctx, typestate_ok, body_inv_ok=False):
     facts = ctx.facts
     tables = {}
     for name, adt in (("common::Method::raw", "common::Method"), ("common::Version::raw", "common::Version")):
@@ -267,15 +469,17 @@ def panics(ctx, typestate_ok):
             ctx.ob("R03.2", "site|" + full_key, True, "environment-justified (outside the parsing entry points; see C09): %s" % env[0], s.loc)
             continue
         asm = [r for (f, a, b), r in ASSUMED.items() if f == s.fn and a in s.key and b in s.desc]
+        if asm and body_inv_ok:
+            n_ok += 1
+            ctx.ob("R03.2", "site|" + full_key, True, "proved by the inductive object invariant R03.6 (len(body_vec) + body_bytes_to_be_read == content_length while WaitingForBody)", s.loc)
+            continue
         if asm:
-            n_assumed += 1
-            ctx.note("ASSUMED (not proved): %s -- %s" % (full_key, asm[0]))
-            ctx.ob("R03.2", "site|" + full_key, True, "ASSUMED, not proved: %s" % asm[0], s.loc)
+            ctx.fail("R03.2", "site|" + full_key, "cannot prove that this cannot panic: %s -- it depends on the object invariant R03.6, which does not hold any more" % s.desc, s.loc)
             continue
         ctx.fail("R03.2", "site|" + full_key, "cannot prove that this cannot panic: %s (%s; %d path(s))" % (s.desc, why or "obligation not entailed", npaths), s.loc)
     floor = 40 if facts.raw.get("overflow_checks") else 30
     ctx.ob("R03.2", "inventory|floor", n_sites >= floor, "%d panic-capable sites enumerated in %d functions (floor %d for this profile): %d proved, %d environment, %d assumed" % (n_sites, nfn, floor, n_ok, n_env, n_assumed))
-    ctx.ob("R03.2", "assumed|at-most-one", n_assumed <= 1, "%d site(s) assumed rather than proved (at most the one named in DESIGN.md)" % n_assumed)
+    ctx.ob("R03.2", "assumed|none", n_assumed == 0, "%d site(s) assumed rather than proved" % n_assumed)
     # callee classification
     try:
         with open(GEN) as fh:
